@@ -73,13 +73,13 @@ CHECKS = {
   note="Trusted: qiskit gate names/conventions; C13 for the meaning of gate classes.",
   tech=TECH + "table agreement, constant/polynomial folding, CFG guard dominance, dispatch totality", ref="DESIGN.md §3 R-K, R-H4, R-D; §4 C12"),
  "C15": dict(
-  text="Constant folding of the module-level gate sequences in tomography/mappings.py (model c.add(g) = g.c, decided under C01) proves U_P . P . U_P^dagger = Z for the X, Y, Z measurement circuits and that I is measured like Z; the eigenvalue multipliers equal the diagonal of PAULI[Z]; structural rules decide the I->Z reuse map and lookup, one circuit per required setting built as base.copy() + add(op_i, 2i), immutability of the base circuit (effect analysis) and the Kronecker order / normalisation of the Pauli expansion. Reconstruction arithmetic on data and fidelity are not claimed.",
+  text="Constant folding of the module-level gate sequences in tomography/mappings.py (model c.add(g) = g.c, decided under C01) proves U_P . P . U_P^dagger = Z for the X, Y, Z measurement circuits and that I is measured like Z; the eigenvalue multipliers equal the diagonal of PAULI[Z]; structural rules decide the I->Z reuse map and lookup, one circuit per required setting built as base.copy() + add(op_i, 2i), immutability of the base circuit (effect analysis) and the Kronecker order / normalisation of the Pauli expansion; eigenvalue factors per case (I, |1,0>, |0,1>, other) over the paths of the loop body; conj/transpose parity: the stored density matrix is the Pauli reconstruction itself (not mixed with its transpose) and Pauli factors enter unconjugated. Reconstruction arithmetic on data and fidelity are not claimed.",
   note="Trusted: gate classes mean their textbook matrices (decided in C13); dual-rail convention |0> = photon in first mode.",
   tech=TECH + "constant folding of closed gate sequences (matrix identities over folded literals), structural / effect rules", ref="DESIGN.md §3 R-K, R-C1; §4 C15"),
  "C16": dict(
-  text="Constant folding proves that the preparation table prepares the density matrices the estimators assume (C e e^dagger C^dagger = RHO[s]), that RHO[P+-] = (I +- P)/2, that the linear-inversion inputs are informationally complete and the input lists agree; role typing of tensor factors decides whether reference Choi matrix and estimators use one factor order - they do not (known finding F9, listed); experiment circuits are preparation / process / measurement on fresh circuits and the base circuit is never mutated. Conjugation conventions for complex gates, MLE convergence / CPTP projection and the gate-fidelity formula are NOT decided.",
+  text="Constant folding proves that the preparation table prepares the density matrices the estimators assume (C e e^dagger C^dagger = RHO[s]), that RHO[P+-] = (I +- P)/2, that the linear-inversion inputs are informationally complete and the input lists agree; role typing of tensor factors decides whether reference Choi matrix and estimators use one factor order - they do not (known finding F9, listed); experiment circuits are preparation / process / measurement on fresh circuits and the base circuit is never mutated. A conjugation/transposition parity algebra over the syntax decides that linear inversion, maximum likelihood (model and gradient) and the reference pair the Choi matrix with the same operator rho^T (x) P (found and repaired F8/D17: the MLE model used vec(choi.T)). MLE convergence / CPTP projection numerics and the gate-fidelity formula are NOT decided.",
   note="Trusted: numpy flatten row-major, kron major index = first factor; C13 for gate meanings. F9 is suppressed only for the listed construct.",
-  tech=TECH + "constant folding of tables, determinant of folded vectorisations, role typing of Kronecker factors", ref="DESIGN.md §3 R-K, K-order; §4 C16"),
+  tech=TECH + "constant folding of tables, determinant of folded vectorisations, role typing of Kronecker factors, conj/transpose parity normal forms of matrix expressions", ref="DESIGN.md §3 R-K, K-order; §4 C16; §9.3 K-conj"),
  "C06": dict(
   text="Polynomial normal forms over (brightness, sqrt(indistinguishability), p1) prove for every parameter value that the single-photon outcome table is normalised, reduces to the ideal source at (1,1,1), that each coefficient sits with the right label list (entries with the shared label vanish at zero indistinguishability, fresh-label entries vanish for a perfectly indistinguishable / pure source) and that splitting by distinguishability creates no mass; structural rules decide the fresh-label allocator (two per photon, advanced by two, restarted above 0) and that every store into a distribution in the source model and the annotated-state convolution accumulates (label canonicalisation and output merging are many-to-one); validators accept exactly [0,1] and (0.5,1]. Mixture semantics, g2, HOM visibility, normalisation under loss and purity_to_prob are NOT decided.",
   note="Trusted: purity_to_prob treated as a free parameter p1 in [0,1].",
